@@ -98,7 +98,19 @@ Consume == /\ l <= NE
            /\ l' = l + 1
            /\ UNCHANGED vars
 
-TNext == IF ForcedSet # {}
+\* Outcome-only traces (header.outcome_only): calls whose hook events cannot be attributed to one call, e.g. two
+\* concurrent Mine calls on the same Worker.  Only PowMine's invariants at the interface are checked for the call
+\* whose context is never cancelled: no cancellation error without cancellation (CancelledOnlyIfCancelled), a returned
+\* nonce meets the target (NonceOnlyIfFound), nothing leaks, no hang.
+OutcomeOnly == "outcome_only" \in DOMAIN Trace[1] /\ Trace[1].outcome_only
+ConsumeOutcome == /\ OutcomeOnly /\ l <= NE
+                  /\ LET e == Events[l]
+                     IN /\ e.ev = "returned"
+                        /\ e.val # -1                      \* this call's context is never cancelled
+                        /\ e.val # -2 /\ ~e.bad_nonce /\ e.leaked = 0
+                  /\ l' = l + 1 /\ UNCHANGED <<vars, ahead>>
+
+TNext == IF OutcomeOnly THEN ConsumeOutcome ELSE IF ForcedSet # {}
          THEN Run(CHOOSE p \in ForcedSet : TRUE)      \* any fixed order: forced steps commute
          ELSE \/ Consume
               \/ \E p \in Procs : (Free(p) \/ Late(p)) /\ Run(p)
